@@ -171,7 +171,7 @@ class C19(Check):
                     yield {'items': [[0, vi]], 'sep': sep, 'pk': pk}
         yield {'items': [], 'sep': '=', 'pk': True}
         for kind in ('nosep', 'nosep_later', 'passthrough', 'parser_valueerror', 'parser_keyerror', 'parser_custom',
-                     'parser_typeerror', 'mapping_keys', 'reentrant_items', 'reentrant_parser'):
+                     'parser_typeerror', 'parser_signal', 'parser_stopiteration', 'mapping_keys', 'reentrant_items', 'reentrant_parser'):
             for sep in SEPS:
                 yield {'special': kind, 'sep': sep}
         rng = random.Random(seed * 131 + 9)
@@ -231,7 +231,9 @@ class C19(Check):
                     res.violate('C19:passthrough', 'a non-string value or key was altered', got=repr(d))
         elif kind.startswith('parser_'):
             excs = {'parser_valueerror': ValueError, 'parser_keyerror': KeyError, 'parser_typeerror': TypeError,
-                    'parser_custom': type('Custom', (Exception,), {})}
+                    'parser_custom': type('Custom', (Exception,), {}),
+                    # "keys or values which fail to parse will be retained as is": whatever class the parser fails with
+                    'parser_signal': type('Signal', (BaseException,), {}), 'parser_stopiteration': StopIteration}
             ex = excs[kind]
             seen = []
 
